@@ -1,4 +1,5 @@
 import CookModel.Lemmas.FrontMatter
+import CookModel.Analysis.FrontMatter
 import CookModel.Lemmas.MetaFront
 import CookModel.Lemmas.MetaFrontDiags
 /-
